@@ -104,3 +104,143 @@ def replay_file(pid, path, v):
         return 1
     print("(no executable replay for this record)")
     return 1
+
+
+def run_hist(v, wd, ex, bind, pid, rnd, mode, views, depth, nvals, imgs, nbuf, invs, simulate=None, name=None, seed=0, timeout=1500):
+    cfg = pdu.hist_cfg(mode, views, depth, nvals, imgs, nbuf, simulate is not None, invs)
+    extra = ["-seed", str(seed)] if simulate else []
+    res = run_tlc("GenHist", cfg, wd, simulate=simulate, extra_args=extra, timeout=timeout)
+    if simulate:
+        res.distinct = res.generated = sum(len(h["ops"]) + 1 for h in res.emitted)
+    v.add_tlc(name or ("GenHist/" + mode), res)
+    if not res.ok:
+        raise Infra("the specification violates its own invariant in GenHist/%s:\n%s" % (mode, (res.violation or "")[-2000:]))
+    st = pdu.replay_histories(v, ex, bind, res.emitted, pid, rnd)
+    v.cov["evaluations"] += st["executed"]
+    v.cov.setdefault("histories_replayed", 0); v.cov["histories_replayed"] += st["histories"]
+    if res.emitted:
+        h = res.emitted[len(res.emitted) // 2]
+        v.sample({"tlc_history": {"bufs": h["bufs"], "ops": [{k: o[k] for k in ("buf", "op", "view", "field", "path", "val")} for o in h["ops"][:6]]}})
+    return res, st
+
+
+def facts(v, wd, bind, pid, kinds):
+    layout = pdu.field_widths(wd)
+    evs = pdu.fact_events(bind, layout, kinds)
+    pdu.validate_facts(v, wd, evs, pid)
+    v.cov.setdefault("facts_validated", 0); v.cov["facts_validated"] += len(evs)
+    if evs: v.sample({"fact": evs[0]})
+    return evs
+
+
+def mc_wire(v, wd):
+    res = run_tlc("MC_Wire1722", "INIT Init\nNEXT Next\n", wd, workers=1, timeout=300)
+    v.add_tlc("MC_Wire1722 (layout theorems as ASSUMEs)", res)
+    if not res.ok:
+        raise Infra("layout transcription inconsistent:\n" + (res.violation or "")[-1500:])
+
+
+@check("C03")
+def c03(v, tier, seed):
+    rnd = random.Random(seed)
+    wd, ex, bind = setup(v)
+    q = tier == "quick"
+    mc_wire(v, wd)
+    facts(v, wd, bind, "C03", ("sizes",))
+    # every accessor / initialiser on a buffer of exactly the published length against an inaccessible page
+    res = run_tlc("GenPdu", pdu.gen_cfg("hdr", ALL_VIEWS, 0 if q else 6, not q, 1, props=["FrameOK", "ReadOnlyOps"]), wd)
+    v.add_tlc("GenPdu/hdr", res)
+    if not res.ok: raise Infra("spec property violated: " + (res.violation or "")[-1500:])
+    exact = [x for x in res.emitted if x["base"] == 0]
+    st = pdu.replay(v, ex, bind, exact, "C03", tier, rnd, publen=True)
+    v.cov["evaluations"] += st["executed"]; v.cov["replayed_transitions"] = len(exact)
+    v.sample({"tlc_transition": exact[len(exact) // 2]})
+    v.cov["rule"] = ("facts (published length, sizeof, payload offset per view) validated by FactsTrace; every Get/Set/Init/payload transition "
+                     "TLC enumerates is executed on a buffer of exactly the published header length placed against PROT_NONE pages")
+    v.cov["distinct_nontrivial"] = len(exact)
+
+
+@check("C04")
+def c04(v, tier, seed):
+    rnd = random.Random(seed)
+    wd, ex, bind = setup(v)
+    q = tier == "quick"
+    gen_and_replay(v, wd, ex, bind, "C04", tier, rnd, "init", ALL_VIEWS, 4 if q else 40, False, depth=2,
+                   invs=["InitCanonical"], props=["FrameOK"])
+    traces(v, wd, ex, bind, "C04", rnd, 6000 if q else 120000, sorted(bind.views), ("init",), nshards=4 if q else 16, name="random-inits")
+    v.cov["rule"] = "every initialiser (current and legacy) x background images x exact/slack arenas, twice in a row (idempotence); random prior contents validated by PduTrace"
+    v.cov["distinct_nontrivial"] = v.cov.get("replayed_transitions", 0)
+
+
+@check("C05")
+def c05(v, tier, seed):
+    rnd = random.Random(seed)
+    wd, ex, bind = setup(v)
+    q = tier == "quick"
+    small = ["CommonHeader", "Udp", "H264", "AcfCommon", "Gpc", "SensorBrief", "Mjpeg", "Ntscf", "Lin", "Sensor", "VssBrief", "Vss"]
+    # (a) exhaustive ordered pairs of operations: commutation, idempotence, RecordView
+    run_hist(v, wd, ex, bind, "C05", rnd, "record", small if q else ALL_VIEWS, 2, 2, [1] if q else [0, 1, 5], 1,
+             ["RecordView", "ReadsLastWritten"], name="GenHist/pairs")
+    # (b) long random behaviours over three buffers of mixed formats (TLC simulation)
+    groups = [ALL_VIEWS[i::4] for i in range(4)]
+    for gi, g in enumerate(groups):
+        run_hist(v, wd, ex, bind, "C05", rnd, "record", g, 40, 5, [0, 1, 5, 6, 7], 3, ["RecordView", "ReadsLastWritten"],
+                 simulate="num=%d" % (6 if q else 400), name="GenHist/simulate[%d]" % gi, seed=seed + gi)
+    # (c) trace direction: seeded random histories recorded from the library, validated by PduTrace
+    layout = pdu.field_widths(wd)
+    shards = []
+    nsh = 8 if q else 16
+    cmds_all, evs_all = [], []
+    for i in range(nsh):
+        cmds, evs = pdu.drive_histories(rnd, bind, layout, 12 if q else 300, 40, ALL_VIEWS)
+        outs = ex.run(cmds)
+        done = pdu.finish_hist_events(evs, outs, v, "C05")
+        shards.append(done)
+        v.cov["evaluations"] += len(cmds)
+    pdu.validate_events(v, wd, shards, "C05", "random-histories", independent=False)
+    if shards and shards[0]:
+        v.sample({"trace_prefix": shards[0][:4]})
+        pdu.negative_control(v, wd, [e for e in shards[0][:80]], "C05")
+    v.cov["rule"] = ("(a) all ordered pairs of operations per view (BFS), (b) TLC-simulated histories of 40 operations over 3 buffers replayed without resets, "
+                     "(c) seeded random histories recorded from the library and validated by PduTrace; RecordView/ReadsLastWritten invariants on the model")
+    v.cov["distinct_nontrivial"] = v.cov.get("histories_replayed", 0)
+
+
+@check("C11")
+def c11(v, tier, seed):
+    rnd = random.Random(seed)
+    wd, ex, bind = setup(v)
+    q = tier == "quick"
+    gen_and_replay(v, wd, ex, bind, "C11", tier, rnd, "bad", ALL_VIEWS, 0 if q else 3, False, props=["ReadOnlyOps", "FrameOK"])
+    # valid arguments through the deprecated entry points return success (and the right bytes)
+    gen_and_replay(v, wd, ex, bind, "C11", tier, rnd, "pairs", LEGACY_VIEWS, 0, False, depth=1, name="GenPdu/valid-legacy")
+    v.cov["rule"] = ("null PDU x every field x every path, out-of-range identifiers {MAX, MAX+1, 255, 256, 256+k for every valid k, 65536, 2^31-1} "
+                     "x {generic, legacy}, null result pointer; buffers on guard-page and read-only placements")
+    v.cov["distinct_nontrivial"] = v.cov.get("replayed_transitions", 0)
+
+
+@check("C12")
+def c12(v, tier, seed):
+    rnd = random.Random(seed)
+    wd, ex, bind = setup(v)
+    q = tier == "quick"
+    facts(v, wd, bind, "C12", ("legacy",))
+    for scn, nr, walk in (("get", 2, True), ("set", 1, False), ("init", 4, False)):
+        gen_and_replay(v, wd, ex, bind, "C12", tier, rnd, scn, LEGACY_VIEWS, nr if q else nr * 6, walk, readback=(scn == "set"))
+    traces(v, wd, ex, bind, "C12", rnd, 8000 if q else 200000, LEGACY_VIEWS, ("get", "set", "init"), nshards=4 if q else 16, name="legacy-vs-current")
+    v.cov["rule"] = ("legacy alias macros and packed structures validated as facts by FactsTrace; the same TLC transitions are executed through the "
+                     "legacy and the current entry points (bytes, results, return codes compared with the one specification)")
+    v.cov["distinct_nontrivial"] = v.cov.get("replayed_transitions", 0)
+
+
+@check("C17")
+def c17(v, tier, seed):
+    rnd = random.Random(seed)
+    wd, ex, bind = setup(v)
+    q = tier == "quick"
+    mc_wire(v, wd)
+    run_hist(v, wd, ex, bind, "C17", rnd, "views", ["G1", "G2", "G3", "G4"], 2, 3 if q else 5, [0, 1] if q else [0, 1, 5, 6], 1,
+             ["ViewsAgree"], name="GenHist/views")
+    v.cov["rule"] = ("for every group of views sharing fields: every ordered pair (A,B) of views x shared field x values x images: write through A, "
+                     "read through B on the same buffer; SharedWellFormed checked as an ASSUME")
+    v.cov["distinct_nontrivial"] = v.cov.get("histories_replayed", 0)
